@@ -55,6 +55,12 @@ class DeleteApplication(BaseMutation):
                 simulation.get_model_sig(model_name)
                 app_sig.remove_model_sig(model_name)
 
+        if not list(app_sig.model_sigs):
+            # Nothing is left of the application (any models remaining
+            # would be ones kept in another database). It's no longer
+            # part of the project.
+            simulation.project_sig.remove_app_sig(app_sig.app_id)
+
     def mutate(self, mutator):
         """Schedule an application deletion on the mutator.
 
